@@ -205,6 +205,10 @@ fn random_op(rng: &mut Rng, k: OpKind) -> Op {
     if rng.chance(1, 30) {
         d |= 0x100;
     }
+    // A subscription request without a serial (closes the connection): rarely.
+    if rng.chance(1, 150) {
+        d |= 0x400;
+    }
     // A service info payload that does not decode (closes the connection): rarely.
     if rng.chance(1, 60) {
         d |= 0x200;
@@ -250,6 +254,9 @@ fn gen_script(rng: &mut Rng, prof: &Profile, minor: u32, abuser: bool, conforman
             if rng.chance(1, 8) {
                 op.d |= 0x200;
             }
+            if rng.chance(1, 8) {
+                op.d |= 0x400;
+            }
             script.push(op);
             continue;
         }
@@ -259,16 +266,11 @@ fn gen_script(rng: &mut Rng, prof: &Profile, minor: u32, abuser: bool, conforman
         }
         let mut op = random_op(rng, k);
         if conformant {
-            op.d &= !0x306; // never force newer variants, never reuse a pending serial, no bad info
-            op.c &= !0x1f; // always with serial
+            op.d &= !0x706; // never force newer variants, never reuse a pending serial, no bad info, always a serial
             if op.c % 16 == 15 {
                 op.c -= 1;
             }
         } else {
-            // Requests without a serial close the connection: keep them rare.
-            if op.c % 32 == 31 && !rng.chance(1, 6) {
-                op.c -= 1;
-            }
             if op.c % 16 == 15 {
                 op.c -= 1; // garbage payloads are the abusers' business
             }
